@@ -27,6 +27,14 @@ def value_env(fi):
         sym = P.sym("self" if i == 0 else p)
         env[p] = sym
         env["%s.value" % p] = sym
+    # locals holding a converted operand (`rhs = LinComb._ensurelc(other)`, whatever the local is called): wire and value of the
+    # local are those of the operand it was made from
+    for a in ast.walk(fi.node):
+        if isinstance(a, ast.Assign) and len(a.targets) == 1 and isinstance(a.targets[0], ast.Name) and isinstance(a.value, ast.Call) \
+                and norm(a.value.func).split(".")[-1] in ("_ensurelc", "_ensurebool", "_ensurefxp") and len(a.value.args) == 1 \
+                and isinstance(a.value.args[0], ast.Name) and a.value.args[0].id in env and a.targets[0].id not in env:
+            env[a.targets[0].id] = env[a.value.args[0].id]
+            env["%s.value" % a.targets[0].id] = env[a.value.args[0].id]
     return env
 
 
@@ -274,6 +282,76 @@ def rule_delegation(repo, rule):
                 rule.ok(where, fi.fq, term)
 
 
+def rule_wires_only(repo, rule):
+    """The relation an assertion enforces in-circuit is a relation between WIRES.  The trace-time value of an operand
+    (`x.value`, or a local computed from one) may be used to decide whether to raise, in the error message and as the hint of a
+    fresh witness - never inside the expression a gadget is applied to or a constraint is built from: that would freeze this
+    run's value into the circuit as a constant, and the circuit would no longer state the declared relation about the operand."""
+    ci = repo.cls(RT, "LinComb")
+    gadget_attrs = {"assert_positive", "assert_zero", "assert_nonzero", "assert_lt", "assert_le", "assert_eq", "assert_ne", "assert_gt",
+                    "assert_ge", "assert_range", "check_positive", "check_zero", "check_nonzero", "to_bits"}
+    n = 0
+    for name, fi in sorted(ci.methods.items()):
+        if not (name.startswith("assert_") or name.startswith("check_")) or not isinstance(fi.node, ast.FunctionDef):
+            continue
+        # numbers derived from values (not wires): locals assigned from an expression reading .value, transitively
+        tainted = set()
+        changed = True
+        alloc = ("PrivVal", "PrivValBool", "PubVal", "ConstVal", "PrivValFxp")
+
+        def reads_value(e, skip_alloc=True):
+            for x in ast.walk(e):
+                if isinstance(x, ast.Attribute) and x.attr == "value" and isinstance(x.ctx, ast.Load):
+                    return True
+                if isinstance(x, ast.Name) and x.id in tainted and isinstance(x.ctx, ast.Load):
+                    return True
+            return False
+
+        def strip_hints(e):
+            """copy of e with the arguments of witness allocations removed (a hint may be any number)"""
+            class _S(ast.NodeTransformer):
+                def visit_Call(self_, c):
+                    if norm(c.func).split(".")[-1] in alloc:
+                        return ast.copy_location(ast.Name(id="__wire__", ctx=ast.Load()), c)
+                    self_.generic_visit(c)
+                    return c
+            from ..loader import clone as _cl
+            return _S().visit(_cl(e))
+        while changed:
+            changed = False
+            for a in ast.walk(fi.node):
+                if isinstance(a, ast.Assign) and len(a.targets) == 1 and isinstance(a.targets[0], ast.Name) and a.targets[0].id not in tainted:
+                    sv_ = strip_hints(a.value)
+                    if isinstance(sv_, (ast.ListComp, ast.GeneratorExp)) and isinstance(sv_.elt, ast.Name) and sv_.elt.id == "__wire__":
+                        continue      # a list of fresh witnesses, one per element of a list of hints: wires
+                    if reads_value(sv_) and not (isinstance(a.value, ast.Call) and norm(a.value.func).split(".")[-1] in alloc):
+                        # a list of hints ([PrivValBool(f(v)) for ..]) is a list of wires
+                        tainted.add(a.targets[0].id)
+                        changed = True
+        for c in ast.walk(fi.node):
+            if not isinstance(c, ast.Call) or any(isinstance(p_, ast.Raise) for p_ in parents(c)):
+                continue
+            ops = []
+            if isinstance(c.func, ast.Attribute) and c.func.attr in gadget_attrs:
+                ops = [c.func.value] + [a for a in c.args]
+            elif norm(c.func).split(".")[-1] in ("add_constraint", "add_constraint_unsafe") and not norm(c.func).startswith("backend."):
+                ops = list(c.args[:3])
+            if not ops:
+                continue
+            n += 1
+            bad = [o for o in ops if reads_value(strip_hints(o)) and not (isinstance(o, ast.Name) and o.id in fi.params)]
+            # width arguments (`bits`) are public numbers, not values
+            bad = [o for o in bad if not (isinstance(o, ast.Name) and o.id in WIDTH_PARAMS)]
+            term = "%s: %s" % (name, norm(c)[:90])
+            if bad:
+                rule.violation(fi.loc(c), fi.fq, term, "the operand `%s` of this gadget contains a trace-time value: the circuit gets this "
+                               "run's number as a constant instead of the wire, so it does not enforce the declared relation for another "
+                               "assignment of that wire" % norm(bad[0])[:60], "%s/value-in-gadget/%s" % (fi.qual, norm(bad[0])[:30]))
+            else:
+                rule.ok(fi.loc(c), fi.fq, term, "gadget operands are wire expressions")
+    return n
+
+
 def rule_booleanity(repo, rule):
     ci = repo.cls("pysnark.boolean", "LinCombBool")
     init = ci.methods["__init__"]
@@ -492,5 +570,7 @@ def check(repo, rep, tier):
     r7 = rep.rule("R-C03-7", "declarations and assertions are enforced at every call: no 'already constrained' state skips them", floor=4)
     from .memoryless import rule_memoryless
     rule_memoryless(repo, r7)
+    r8 = rep.rule("R-C03-8", "the enforced relation is stated over wires: no trace-time value of an operand is folded into a gadget operand", floor=10)
+    rule_wires_only(repo, r8)
     r6 = rep.rule("R-C03-6", "packing: secret bounded integers are range-checked on unpack", floor=1)
     rule_pack_unpack(repo, r6)
